@@ -181,6 +181,17 @@ def one(h: Harness, spec, limit, b=None, superset=None):
                 return
             reach[kind] = progs
             h.count(f"{kind}:decision-sequences", n)
+        if spec.expansion:
+            # grammar-expansion depthing: the limit counts abstract expansions and containers on top of the nodes, so the reachable
+            # set is a SUBSET of the node-depth-bounded language which the property describes; it is judged draw by draw against
+            # the model's creation (above, every decision sequence within the limit) and for membership -- completeness with
+            # respect to the node-depth language is not claimed in this mode
+            h.count("expansion-mode:creation-lines-and-membership-only")
+            for kind_, progs_ in reach.items():
+                for p in sorted(progs_)[:40]:
+                    h.holds(f"create_genotype[{kind_}]", "reachable-program-outside-bounded-language", ["prop_in_language", line_spec, d, parse_sx(p)],
+                            f"{kind_} at depth {d} (expansion depthing) produced {p[:160]}, not a well-typed program of depth <= {d}", [sx(line_spec), d, p])
+            continue
         # the model's enumeration of the bounded language
         h.flush()
         from core import run_driver
@@ -265,9 +276,22 @@ def corpus():
         gram.Spec([C("A0", True, None), C("Step", False, None, [("lo", ("ann", "int", ("intRange", 1, 2)))]),
                    C("Window", False, 0, [("lo", ("ann", "int", ("intRange", 0, 2))), ("step", ("cls", 1)), ("hi", ("ann", "int", ("depIntRangeLo", "lo", 3)))]),
                    C("Leaf", False, 0, [])], 0, [2, 3, 1]),
+        # a refinement that depends on TWO siblings, named in the opposite order of their declaration and not alphabetically:
+        # Dependent("scale,base", lambda scale, base: IntRange(base, base + scale))
+        gram.Spec([C("A0", True, None), C("Leaf", False, 0, []),
+                   C("Span", False, 0, [("base", ("ann", "int", ("intRange", 5, 6))), ("scale", ("ann", "int", ("intRange", 1, 2))),
+                                        ("value", ("ann", "int", ("depIntRangeSpan", "scale", "base")))])], 0, [1, 2]),
         # possibly-empty list at the depth frontier (the open finding's witness)
         gram.Spec([C("A0", True, None), C("L", False, 0, []),
                    C("P", False, 0, [("xs", ("ann", ("list", ("cls", 0)), ("listSize", 0, 1))), ("k", ("ann", "int", ("intRange", 0, 1)))])], 0, [1, 2]),
+        # expansion depthing (abstract hops and containers are charged), with and without production weights: weights do not
+        # change what is creatable, nor the depth mode of the grammar
+        gram.Spec([C("A0", True, None), C("A1", True, 0), C("L", False, 0, [("v", "bool")]), C("M", False, 1, [("x", ("cls", 0))], weight=3),
+                   C("N", False, 1, []), C("Xs", False, 0, [("xs", ("ann", ("list", ("cls", 1)), ("listSize", 1, 2)))], weight=0.5)], 0, [2, 3, 4, 5, 1], True),
+        gram.Spec([C("A0", True, None), C("A1", True, 0), C("L", False, 0, [("v", "bool")]), C("M", False, 1, [("x", ("cls", 0))]),
+                   C("N", False, 1, []), C("Xs", False, 0, [("xs", ("ann", ("list", ("cls", 1)), ("listSize", 1, 2)))])], 0, [2, 3, 4, 5, 1], True),
+        gram.Spec([C("A0", True, None), C("Lit", False, 0, [], weight=2),
+                   C("Pair", False, 0, [("p", ("tuple", ("cls", 0), "bool"))], weight=1)], 0, [1, 2], True),
         # refined leaves
         gram.Spec([C("A0", True, None), C("K", False, 0, [("k", ("ann", "int", ("intRange", 0, 2))), ("s", ("ann", "str", ("varRange", ["x", "y"])))]),
                    C("U", False, 0, [("u", ("union", ("cls", 0), ("ann", "int", ("intList", [7, 9]))))])], 0, [1, 2]),
